@@ -98,13 +98,13 @@ def finish (d : DState) (i : Nat) (wc : WC) : DState × String :=
   let ws0 := { d.ws with cbs := [] }
   let ws := ws0.processBatch i wc.out
   ({ caches := d.caches.set i wc, ws := ws },
-   s!"R: {showToks (wc.out.flatMap resToks)} C: {showToks (ws.cbs.flatMap cbToks)}")
+   s!"R: {showToks (wc.out.flatMap resToks)} C: {showToks (ws.cbs.flatMap cbToks)} N={wc.resets}")
 
 def step (d : DState) (line : String) : DState × String :=
   match words line with
   | ["new", n, p, sd] => match n.toNat?, p.toNat?, sd.toNat? with
     | some n, some p, some sd =>
-      ({ caches := List.replicate n (WC.new p (sd != 0)), ws := WS.new n }, "ok")
+      ({ caches := List.replicate n (WC.new (procOf p) (sd != 0)), ws := WS.new n }, "ok")
     | _, _, _ => (d, "bad-op")
   | "call" :: i :: toks => match i.toNat?, parseScript toks with
     | some i, some sc => match d.caches[i]?, sc.fin with
@@ -113,7 +113,7 @@ def step (d : DState) (line : String) : DState × String :=
     | _, _ => (d, "bad-op")
   | ["stop", i] => match i.toNat? with
     | some i => match d.caches[i]? with
-      | some wc => finish d i ({ wc with out := [] }).sendDeletionsForAll
+      | some wc => finish d i ({ wc with out := [], resets := 0 }).sendDeletionsForAll
       | none => (d, "bad-op")
     | none => (d, "bad-op")
   | ["dump", i] => match i.toNat? with
